@@ -8,3 +8,11 @@
 //@   trusted
 //@   modifies nothing
 //@   ensures result1 ==> result0 == smVal(m, key) && result0 != nil
+
+//@ func (*Map) Store
+//@   trusted
+//@   modifies nothing
+
+//@ func (*Map) Delete
+//@   trusted
+//@   modifies nothing
